@@ -275,7 +275,7 @@ def run(rep, tier, seed, tr_errors):
         rep.oblige("translator:tr_steps", False, tr_errors["tr_steps"][-400:])
     else:
         rep.oblige("translator:tr_steps", True, "gen/Steps_gen.v regenerated")
-    thm_ok, names, out = lib.check_props_file(rep, PROPS_FILE, expect=["C18_fraction_in_unit", "C18_increment_raises_iff", "C18_zhit_steps_ok"])
+    thm_ok, names, out = lib.check_props_file(rep, PROPS_FILE, expect=["C18_fraction_in_unit", "C18_increment_raises_iff", "C18_zhit_steps_ok", "C18_fit_steps_ok"])
     pcs = progress_cases(rng, 400 if tier == "quick" else 5000)
     cases = []
     bad_msgs = 0
